@@ -196,6 +196,8 @@ def main(argv=None):
         if harness_error:
             print("HARNESS-ERROR", harness_error)
     write_evidence(prop, tier, seed, mod, results, tv, time.time() - t_start, len(violations), known_hits)
+    slow = sorted(results, key=lambda r: -r.get("wall_s", 0))[:3]
+    print("slowest cases: " + "; ".join(f"{r.get('wall_s', 0):.1f}s {r['name'][:90]}" for r in slow))
     n_unsat = sum(1 for r in results if r["verdict"] == "unsat")
     print(f"{prop} tier={tier}: {len(results)} cases, {n_unsat} hold, {len(violations)} violations, "
           f"{len(known_hits)} known findings, {len(inconclusive)} inconclusive, "
